@@ -475,3 +475,217 @@ Proof.
       cbv zeta in Hs. injection Hs as <- _. proj_simpl. reflexivity. }
     specialize (IH _ _ _ _ _ _ _ _ D2 Hk1 He1 Hwf1 Hsafe1 Hfin2 Hrest HK1 Huse2). rewrite Erest in IH. exact IH.
 Qed.
+
+(* ---- before the first accepted frame: a rejected frame may "poison" the receiver ----------- *)
+(* A rejected would-be first frame of 32 bytes or more leaves the first-frame flag set while the
+   counter is still 0.  From then on the receiver takes the IV from every frame it is shown and
+   checks it against header-only associated data - and the header covers the length of a body
+   that now includes the 16 IV bytes, which no ciphertext sealed by a cedar sender under
+   header-only data has.  Such a receiver therefore rejects everything for ever. *)
+Local Transparent hdr_of.
+Lemma hdr_of_len_inj fl len fl' len' :
+  len < 4294967296 -> len' < 4294967296 -> hdr_of fl len = hdr_of fl' len' -> len = len'.
+Proof.
+  intros H1 H2 E. unfold hdr_of in E. apply (f_equal (@tl byte)) in E.
+  change (be_enc 4 len = be_enc 4 len') in E.
+  apply (f_equal be_dec) in E. rewrite !be_dec_enc in E.
+  change (2 ^ (8 * N.of_nat 4)) with 4294967296 in E. rewrite !N.mod_small in E by assumption. exact E.
+Qed.
+Local Opaque hdr_of.
+
+(* a ciphertext sealed by a cedar sender under header-only associated data is the body of a frame
+   whose header announces exactly plaintext + tag bytes *)
+Definition hdr_shaped (c : ctext) : Prop :=
+  match c with
+  | Seal _ _ a p => forall h, a = AadHdr h -> exists fl, h = hdr_of fl (lenN p + GcmTagSize) /\ lenN p <= MaxMessageSize
+  end.
+
+Definition poisoned (B : stream) : Prop := dec_ctr B = 0 /\ fin_recv_aad B = true.
+
+Lemma fail_decrypt_poisoned B n : poisoned B -> poisoned (fail_decrypt B n) /\ key (fail_decrypt B n) = key B /\
+                                               encrypted (fail_decrypt B n) = encrypted B.
+Proof.
+  intros [H0 Hf]. unfold fail_decrypt, poisoned.
+  destruct ((if dec_ctr B =? 0 then IvLenRecv + MinTagLen else MinTagLen) <=? n); proj_simpl; repeat split; assumption.
+Qed.
+
+Lemma max_msg_small : MaxMessageSize + GcmTagSize + GcmTagSize < 4294967296.
+Proof. vm_compute. reflexivity. Qed.
+
+Ltac fdp :=
+  let E := fresh "E" in
+  intro E; inversion E; subst;
+  match goal with
+  | HP : poisoned ?b |- poisoned (fail_decrypt ?b ?n) /\ _ =>
+      let X := fresh "X" in
+      destruct (fail_decrypt_poisoned b n HP) as [[X1 X2] [X3 X4]];
+      repeat split; [exact X1|exact X2|congruence|exact X4]
+  end.
+
+Lemma poisoned_rejects B k f' :
+  enc_active B = true -> key B = Some k -> poisoned B ->
+  (forall ivo ct, f_body f' = Ct ivo ct -> hdr_shaped ct) ->
+  exists B1 e, recv_frame_we B f' = (B1, SErr e) /\ poisoned B1 /\ key B1 = Some k /\ encrypted B1 = encrypted B.
+Proof.
+  intros Hact Hk HP Hshape. pose proof HP as [H0 Hf].
+  destruct (recv_frame_we B f') as [B1 [[d' fl']|e]] eqn:Er.
+  - exfalso.
+    destruct (recv_we_enc_inv _ _ _ _ _ _ Hact Hk Er) as [ivo [ct [div [Hb [_ [_ [Hcase Hopen]]]]]]].
+    destruct Hcase as [[_ [-> Hl]]|[Hne _]]; [|contradiction].
+    unfold aad_recv in Hopen. rewrite Hf in Hopen.
+    apply open_only_seal in Hopen.
+    pose proof (Hshape _ _ Hb) as Hs. rewrite Hopen in Hs. cbn [hdr_shaped seal] in Hs.
+    destruct (Hs _ eq_refl) as [fl [Eh Hmax]].
+    rewrite Hb, Hopen in Eh. rewrite (body_len_ct true) in Eh.
+    pose proof max_msg_small. pose proof tag_pos.
+    apply hdr_of_len_inj in Eh; lia.
+  - exists B1, e. split; [reflexivity|].
+    (* which failure it was: either nothing changed, or fail_decrypt was applied *)
+    revert Er. unfold recv_frame_we, recv_frame_gen.
+    destruct (max_wire B <? body_len (f_body f')); [intro E; inversion E; subst; repeat split; assumption|].
+    destruct (FlagMaxRecvWE <? f_flag f'); [intro E; inversion E; subst; repeat split; assumption|].
+    destruct (body_len (f_body f') =? 0).
+    { rewrite Hact. intro E; inversion E; subst; repeat split; assumption. }
+    unfold recv_body. rewrite Hact. rewrite Hk. unfold decrypt. cbv zeta.
+    assert (Hw : forall div c,
+      match decrypt_with B k (hdr_of (f_flag f') (body_len (f_body f'))) div c (body_len (f_body f')) with
+      | (s1, SOk d) => (note_recv s1 (hdr_of (f_flag f') (body_len (f_body f')) ++ d), SOk (d, f_flag f'))
+      | (s1, SErr e0) => (s1, SErr e0)
+      end = (B1, SErr e) -> poisoned B1 /\ key B1 = Some k /\ encrypted B1 = encrypted B).
+    { intros div c. unfold decrypt_with.
+      destruct (open k (nonce_of div (dec_ctr B)) (aad_recv B (hdr_of (f_flag f') (body_len (f_body f')))) c);
+        [discriminate|]. fdp. }
+    destruct (f_body f') as [bs|ivo c];
+      [fdp|].
+    destruct (dec_ctr B =? 0); destruct ivo as [iv|];
+      try fdp.
+    + destruct (lenN iv =? 16); [apply Hw|fdp].
+    + apply Hw.
+Qed.
+
+(* a poisoned receiver accepts nothing, however long the application reads on *)
+Lemma poisoned_accepts_nothing fs' : forall B k,
+  enc_active B = true -> key B = Some k -> poisoned B ->
+  (forall f' ivo ct, In f' fs' -> f_body f' = Ct ivo ct -> hdr_shaped ct) ->
+  snd (recv_frames_all B fs') = [].
+Proof.
+  induction fs' as [|f' r' IH]; intros B k Hact Hk HP Hshape; [reflexivity|].
+  cbn [recv_frames_all].
+  destruct (poisoned_rejects B k f' Hact Hk HP (fun ivo ct => Hshape f' ivo ct (or_introl eq_refl)))
+    as [B1 [e [Er [HP1 [Hk1 He1]]]]].
+  rewrite Er. apply (IH B1 k).
+  - unfold enc_active in *. rewrite Hk1, He1. rewrite Hk in Hact. exact Hact.
+  - exact Hk1.
+  - exact HP1.
+  - intros g ivo ct Hin. apply Hshape. right. exact Hin.
+Qed.
+
+(* the frames a cedar sender emits are of that shape *)
+Lemma send_frame_shaped s d fl s' f ivo ct :
+  send_frame s d fl = (s', SOk f) -> wf_send s -> f_body f = Ct ivo ct -> hdr_shaped ct.
+Proof.
+  intros Hs [Hwf Hle] Hb.
+  destruct (key s) as [k|] eqn:Hk.
+  2: { unfold send_frame in Hs. destruct (MaxMessageSize <? lenN d); [discriminate|]. rewrite Hk in Hs.
+       inversion Hs; subst. cbn [f_body] in Hb. discriminate. }
+  destruct (encrypted s) eqn:He.
+  2: { unfold send_frame in Hs. destruct (MaxMessageSize <? lenN d); [discriminate|]. rewrite Hk, He in Hs.
+       inversion Hs; subst. cbn [f_body] in Hb. discriminate. }
+  pose proof (send_frame_ok_len _ _ _ _ _ Hs) as Hmax.
+  destruct (send_frame_enc _ _ _ _ _ _ Hk He Hle Hs) as [_ [_ [_ [_ [_ [_ Hbody]]]]]].
+  rewrite Hbody in Hb. injection Hb as _ <-. cbn [hdr_shaped seal].
+  intros h Ha. unfold aad_send in Ha.
+  destruct (fin_send_aad s) eqn:Ef; [|discriminate].
+  injection Ha as <-.
+  assert (Hc : enc_ctr s =? 0 = false).
+  { apply N.eqb_neq. intro E0. apply Hwf in E0. congruence. }
+  rewrite Hc. exists fl. rewrite N.add_0_r. split; [reflexivity|exact Hmax].
+Qed.
+
+(* every way a frame can be rejected: the receiver is untouched, or fail_decrypt was applied *)
+Lemma recv_we_fail_cases B f B1 e :
+  recv_frame_we B f = (B1, SErr e) -> B1 = B \/ exists n, B1 = fail_decrypt B n.
+Proof.
+  unfold recv_frame_we, recv_frame_gen.
+  destruct (max_wire B <? body_len (f_body f)); [intro E; inversion E; left; reflexivity|].
+  destruct (FlagMaxRecvWE <? f_flag f); [intro E; inversion E; left; reflexivity|].
+  destruct (body_len (f_body f) =? 0).
+  - destruct (enc_active B); intro E; inversion E; left; reflexivity.
+  - unfold recv_body. destruct (enc_active B).
+    + destruct (key B) as [k|]; [|intro E; inversion E; left; reflexivity].
+      unfold decrypt. cbv zeta.
+      assert (Hw : forall div c,
+        match decrypt_with B k (hdr_of (f_flag f) (body_len (f_body f))) div c (body_len (f_body f)) with
+        | (s1, SOk d) => (note_recv s1 (hdr_of (f_flag f) (body_len (f_body f)) ++ d), SOk (d, f_flag f))
+        | (s1, SErr e0) => (s1, SErr e0)
+        end = (B1, SErr e) -> B1 = B \/ exists n, B1 = fail_decrypt B n).
+      { intros div c. unfold decrypt_with.
+        destruct (open k (nonce_of div (dec_ctr B)) (aad_recv B (hdr_of (f_flag f) (body_len (f_body f)))) c);
+          [discriminate|]. intro E; inversion E. right. eexists. reflexivity. }
+      destruct (f_body f) as [bs|ivo c]; [intro E; inversion E; right; eexists; reflexivity|].
+      destruct (dec_ctr B =? 0); destruct ivo as [iv|];
+        try (intro E; inversion E; right; eexists; reflexivity).
+      * destruct (lenN iv =? 16); [apply Hw|intro E; inversion E; right; eexists; reflexivity].
+      * apply Hw.
+    + destruct (f_body f); intro E; inversion E; left; reflexivity.
+Qed.
+
+Lemma fail_decrypt_cases B n : fail_decrypt B n = B \/
+  (fin_recv_aad (fail_decrypt B n) = true /\ dec_ctr (fail_decrypt B n) = dec_ctr B /\
+   key (fail_decrypt B n) = key B /\ encrypted (fail_decrypt B n) = encrypted B).
+Proof.
+  unfold fail_decrypt.
+  destruct ((if dec_ctr B =? 0 then IvLenRecv + MinTagLen else MinTagLen) <=? n); [right|left; reflexivity].
+  proj_simpl. repeat split.
+Qed.
+
+(* the unconditional statement: from ANY point of a session, fresh or established, and however
+   the application reads on after errors, what is accepted is a prefix of what was sent *)
+Lemma prefix_frames_all fs' : forall A B k o K tr fs A',
+  duplex A B -> key A = Some k -> encrypted A = true -> wf_send A -> reflect_safe A B o ->
+  sent A tr fs A' -> known_ok k (enc_iv A) (enc_ctr A) fs o K -> uses_only K fs' ->
+  (forall f' ivo ct, In f' fs' -> f_body f' = Ct ivo ct -> hdr_shaped ct) ->
+  prefix (snd (recv_frames_all B fs')) tr.
+Proof.
+  induction fs' as [|f' r' IH]; intros A B k o K tr fs A' D Hk He Hwf Hsafe Hsent HK Huse Hshape.
+  - constructor.
+  - assert (Huse2 : uses_only K r').
+    { intros g ivo ct Hin Hb. eapply Huse; [right; exact Hin|exact Hb]. }
+    assert (Hshape2 : forall f' ivo ct, In f' r' -> f_body f' = Ct ivo ct -> hdr_shaped ct).
+    { intros g ivo ct Hin. apply Hshape. right. exact Hin. }
+    cbn [recv_frames_all]. destruct (recv_frame_we B f') as [B1 [[d' fl']|e]] eqn:Er.
+    2: { destruct (recv_we_fail_cases _ _ _ _ Er) as [->|[n ->]];
+           [exact (IH _ _ _ _ _ _ _ _ D Hk He Hwf Hsafe Hsent HK Huse2 Hshape2)|].
+         destruct (fail_decrypt_cases B n) as [->|[Hfin [Hc [Hkk Hee]]]];
+           [exact (IH _ _ _ _ _ _ _ _ D Hk He Hwf Hsafe Hsent HK Huse2 Hshape2)|].
+         destruct D as [P PB]. pose proof P as [Pk Pe Pc Piv Pivl Pf Psd Prd].
+         destruct (N.eq_dec (dec_ctr B) 0) as [E0|Ne0].
+         - (* the receiver was still waiting for its first frame: it is poisoned now *)
+           rewrite (poisoned_accepts_nothing r' (fail_decrypt B n) k); [constructor| | | |exact Hshape2].
+           + unfold enc_active. rewrite Hkk, Hee, <- Pk, <- Pe, Hk, He. reflexivity.
+           + rewrite Hkk, <- Pk. exact Hk.
+           + split; [rewrite Hc; exact E0|exact Hfin].
+         - (* an established receiver: nothing changed *)
+           assert (Hf : fin_recv_aad B = true).
+           { rewrite <- Pf. destruct Hwf as [Hwf0 _]. destruct (fin_send_aad A) eqn:Efa; [reflexivity|].
+             exfalso. apply Ne0. rewrite <- Pc. apply Hwf0. reflexivity. }
+           rewrite (fail_decrypt_id _ _ Hf).
+           exact (IH _ _ _ _ _ _ _ _ (conj P PB) Hk He Hwf Hsafe Hsent HK Huse2 Hshape2). }
+    destruct D as [P PB].
+    assert (Huse1 : forall ivo ct, f_body f' = Ct ivo ct -> K ct).
+    { intros ivo ct Hb. eapply Huse; [left; reflexivity|exact Hb]. }
+    destruct (accepted_is_next _ _ _ _ _ _ _ _ _ _ _ _ P Hk He Hwf Hsafe Hsent HK Huse1 Er)
+      as [d [fl [A1 [f [tr1 [fs1 [-> [-> [Hs [Hrest [Hflok ->]]]]]]]]]]].
+    assert (Hfl : fl <= FlagMaxRecvWE) by (destruct Hflok as [-> | ->]; vm_compute; discriminate).
+    destruct (send_recv_frame _ _ _ _ _ _ (conj P PB) Hfl Hs) as [B2 [Hr2 D2]].
+    rewrite Hr2 in Er. injection Er as <- <- <-.
+    destruct (wf_send_step _ _ _ _ _ _ Hk He Hwf Hs) as [Hwf1 [Hk1 [He1 [Hiv1 [Hc1 [Hlt Hf]]]]]].
+    destruct (recv_frames_all B2 r') as [B3 l] eqn:Erest. cbn [snd].
+    constructor.
+    assert (HK1 : known_ok k (enc_iv A1) (enc_ctr A1) fs1 o K).
+    { rewrite Hiv1, Hc1. eapply known_ok_step; [exact Hf|exact HK]. }
+    assert (Hsafe1 : reflect_safe A1 B2 o).
+    { eapply reflect_safe_step; [exact Hsafe|exact Hiv1|].
+      destruct D2 as [[_ _ Pc2 _ _ _ _ _] _]. rewrite <- Pc2, Hc1. lia. }
+    specialize (IH _ _ _ _ _ _ _ _ D2 Hk1 He1 Hwf1 Hsafe1 Hrest HK1 Huse2 Hshape2). rewrite Erest in IH. exact IH.
+Qed.
